@@ -140,10 +140,17 @@ class Reaction(Object):
             )
         forward_variable = self.forward_variable
         reverse_variable = self.reverse_variable
+        old_id = self._id
         self._id = value
+        try:
+            forward_variable.name = self.id
+            reverse_variable.name = self.reverse_id
+        except Exception:
+            # A name that the solver does not accept: nothing is renamed.
+            self._id = old_id
+            forward_variable.name = self.id
+            raise
         self.model.reactions._generate_index()
-        forward_variable.name = self.id
-        reverse_variable.name = self.reverse_id
 
     @property
     def reverse_id(self) -> str:
